@@ -282,12 +282,16 @@ Section MruBridge.
       ll_run true l h = run_res (fun l e => ll_step true l (e_op e) (e_now e) (e_rnd e)) l h.
   Proof. induction h as [|e r IH]; intros l; simpl; auto. destruct (ll_step true l (e_op e) (e_now e) (e_rnd e)) as [[l1 y]|]; simpl; auto. rewrite IH. reflexivity. Qed.
 
+  (* the constructor, translated: member initialisers + body give the literal machine's initial state *)
+  Lemma g_init_ok (cap : nat) : (g_init cap : lrul K V) = lrul_init cap.
+  Proof. reflexivity. Qed.
+
   Theorem generated_mru_no_UB_on_any_history : forall cap (h : list (ev K V)),
       1 <= cap ->
-      exists l', run_res g_step (lrul_init cap) h = Ok (l', snd (run (lc_step (pol true)) (lc_init cap) h)) /\
+      exists l', run_res g_step (g_init cap) h = Ok (l', snd (run (lc_step (pol true)) (lc_init cap) h)) /\
                  ll_rep true l' (fst (run (lc_step (pol true)) (lc_init cap) h)).
   Proof.
-    intros cap h Hc.
+    intros cap h Hc. rewrite g_init_ok.
     destruct (ll_no_UB_on_any_history true cap h Hc) as (l' & D & R).
     exists l'. split; auto.
     pose proof (run_res_req g_step (fun l e => ll_step true l (e_op e) (e_now e) (e_rnd e)) (fun _ => True)
